@@ -171,7 +171,7 @@ type c12BBCase struct {
 	AllPred bool `json:"allPred,omitempty"`
 }
 
-var c12BBTypes = []string{"c12Nest", "c12Any", "c12Node", "c12PC", "c12Mp", "c12P3", "c12Hist", "c12MKs", "c12MKp", "c12UStr", "c12Leaf"}
+var c12BBTypes = []string{"c12Nest", "c12Any", "c12Node", "c12PC", "c12Mp", "c12P3", "c12Hist", "c12MKs", "c12MKp", "c12UStr", "c12Leaf", "C12Task", "C12Deep", "C12PTask"}
 
 // c12BBGen: state and pending input. loud = the values hold an unregistered type: the only
 // acceptable outcomes are a refused checkpoint or a faithful restore.
@@ -355,6 +355,12 @@ func c12BlackBox(ctx *vh.Ctx, c *c12BBCase) {
 		c12BBOne[c12UStr](ctx, c)
 	case 10:
 		c12BBOne[c12Leaf](ctx, c)
+	case 11:
+		c12BBOne[C12Task](ctx, c)
+	case 12:
+		c12BBOne[C12Deep](ctx, c)
+	case 13:
+		c12BBOne[C12PTask](ctx, c)
 	}
 }
 
